@@ -9,7 +9,7 @@ P = {'id': 'C20',
               'case_maps', 'to_lower_bmi2_is_map', 'to_upper_bmi2_is_map', 'case_length',
               'lex_seek_lower_bound_spec', 'lex_seek_upper_bound_spec', 'lex_enumerate_all',
               'lex_lower_bound_walk', 'lex_upper_bound_walk',
-              'fs_find_first_occurrence', 'fs_find_byte_first', 'fs_starts_with_spec', 'fs_ends_with_spec', 'fs_starts_with_is_find_0', 'fs_cmp_by_common_prefix', 'fs_cmp_total_order', 'fs_slicing', 'fs_substring_spec', 'fs_hash_paths_agree', 'fs_eq_hash_coherent', 'find_word_boundaries_spec', 'word_at_position_maximal', 'lines_cfg_decompose', 'lines_keep_concat', 'count_lines_is_length', 'batches_spec', 'lines_default_is_lines', 'utf8_walks', 'utf8_roundtrip', 'streaming_enumerates', 'streaming_unlines', 'ssv_binary_search_spec', 'zo_spec', 'zo_accepts', 'ssv_push_get', 'ssv_push_refuses'],
+              'fs_find_first_occurrence', 'fs_find_byte_first', 'fs_starts_with_spec', 'fs_ends_with_spec', 'fs_starts_with_is_find_0', 'fs_cmp_by_common_prefix', 'fs_cmp_total_order', 'fs_slicing', 'fs_substring_spec', 'fs_hash_paths_agree', 'fs_eq_hash_coherent', 'find_word_boundaries_spec', 'word_at_position_maximal', 'lines_cfg_decompose', 'lines_keep_concat', 'count_lines_is_length', 'batches_spec', 'lines_default_is_lines', 'utf8_walks', 'utf8_roundtrip', 'streaming_enumerates', 'streaming_unlines', 'ssv_binary_search_spec', 'zo_spec', 'zo_accepts', 'ssv_push_get', 'ssv_push_refuses', 'fast_lex_cmp_is_lex'],
  'trusted': ['modelled (M+S): src/string/numeric_compare.rs (decimal_strcmp, realnum_strcmp and helpers); src/string/join.rs (join/join_str/join_fast_str/'
              'JoinBuilder::build as one loop, join_iter/join_bytes_iter as the first-flag loop); LineSplitter::split_optimized and FastStr::split '
              '(SplitIter) ; WordIterator; LineProcessor::read_next_line/process_lines in the default configuration (BufRead::read_line is part of the model); '
